@@ -79,6 +79,9 @@ def _streams(tier, seed):
     import itertools
     for n in range(0, 4):
         out += [list(t) for t in itertools.product(vals[:4], repeat=n)]
+    # a value equal to the running mean (leaves the sum of squares unchanged while the count grows)
+    out += [[Fraction(1), Fraction(3), Fraction(2)], [Fraction(0), Fraction(4), Fraction(2), Fraction(2), Fraction(7)],
+            [Fraction(5), Fraction(-3), Fraction(1), Fraction(1)]]
     for _ in range(60 if tier == 'quick' else 600):
         n = rng.randint(4, 40)
         out.append([Fraction(rng.randint(-50, 50), rng.randint(1, 7)) for _ in range(n)])
